@@ -6,6 +6,9 @@
 #ifndef C14_H
 #define C14_H
 #include "vp.h"
+#if defined(VP_NATIVE) && defined(C14_PRINT)
+#  include <stdio.h>
+#endif
 
 static unsigned long c14_f, c14_base;
 
@@ -13,10 +16,12 @@ static unsigned long c14_f, c14_base;
  * position with c14_f a constant (so pointer NULL-ness, lengths and counters stay constants inside each case - with a
  * symbolic vp_alloc_fail_at every allocation result is an ite(NULL, object) and nothing closes: measured), every case
  * ends the path (return), and the solver picks the case.  One query still covers every allocation site. */
-#define C14_SPLIT(K, call)                                  \
+#define C14_SPLIT(K, call) C14_SPLIT_RANGE(0, K, call)
+/* a job may cover only the slice LO..HI of the positions (jobs.py enumerates the slices) */
+#define C14_SPLIT_RANGE(LO, K, call)                        \
   do {                                                      \
-    unsigned long c14_i, c14_pick = (unsigned long)vp_range(0, (K)); \
-    for (c14_i = 0; c14_i <= (unsigned long)(K); c14_i++)   \
+    unsigned long c14_i, c14_pick = (unsigned long)vp_range((LO), (K)); \
+    for (c14_i = (LO); c14_i <= (unsigned long)(K); c14_i++) \
       if (c14_pick == c14_i) {                              \
         c14_f = c14_i;                                      \
         call;                                               \
@@ -44,6 +49,9 @@ static int c14_injected(void)
 static void c14_disarm(unsigned long kmax)
 {
   vp_alloc_fail_at = 0;
+#if defined(VP_NATIVE) && defined(C14_PRINT)
+  fprintf(stderr, "C14: call made %lu allocations (f=%lu)\n", vp_alloc_calls - c14_base, c14_f);
+#endif
   VP_BOUND(c14_injected() || vp_alloc_calls - c14_base <= kmax, "operation allocates more often than the failure positions covered");
 }
 #endif
